@@ -240,7 +240,7 @@ def parse_statement(toks):
     if u == "DATA":
         return ("data", check_args(toks[1:]))
     if u in ("DIM", "TYPE", "BASE", "PARAM"):
-        return ("decl", u)
+        return ("decl", u, toks)
     if u == "POKE":
         a = check_args(toks[1:])
         if len(a) != 2:
